@@ -14,7 +14,9 @@ Hists == {Append(h, g) : h \in SeqsUpTo(HistLen - 1), g \in GenOps}
 HistScen == {[kind |-> "hist", layout |-> l, tags |-> t, steps |-> h] : l \in LayoutSet, t \in TagSet, h \in Hists}
 
 Decls == {<<>>, <<"a">>, <<"a", "b">>}
-Exists == {"none", "same", "other"}
+\* other-errors: the existing package (of another name) does not type-check under the goverter tag, as hand-written code that uses
+\* the generated converter does not
+Exists == {"none", "same", "other", "other-errors"}
 PlaceScen == {[kind |-> "place", decl |-> d, ofile |-> f, opkg |-> p, exist |-> e, cwd |-> c, conv2 |-> c2,
                outdir |-> OutDir(d, f, c), outfile |-> OutFile(f), pkg |-> PkgName(d, "src", f, p, e, c)] :
                d \in Decls, f \in OFiles, p \in OPkgs, e \in Exists, c \in CwdForms, c2 \in {"none", "same-file-same-pkg", "same-file-other-pkg", "same-file-other-name", "other-file-same-pkg", "vars", "vars-path-pkg", "two-opkg-lines"}}
